@@ -177,6 +177,7 @@ func (e *Exec) assertPC(c *Term) {
 	e.sol.Assert(c)
 	e.setKnown(c, true)
 	e.learnDomain(c)
+	e.ts.LearnFromCond(c, true)
 }
 
 const maxDomain = 64
@@ -631,6 +632,7 @@ func (e *Exec) runPath(fn *ssa.Function, prefix []int64) (res *PathResult) {
 	e.par = nil
 	e.panicking = nil
 	e.domains = map[*Term][]uint64{}
+	e.ts.ResetLearned()
 	res = e.cur
 	e.sol.Push()
 	defer func() {
